@@ -665,27 +665,27 @@ def check_ctor(case):
 FACETS = [
     Facet("same_instant", conv_case, check_same_instant, setup=setup_conv,
           rule="label pair differs or instant within 90 s of 0h UTC",
-          quick=(8, 1200), thorough=(32, 12000)),
+          quick=(8, 1200), thorough=(32, 6000)),
     Facet("round_trip_reading", conv_case, check_round_trip, setup=setup_conv,
           rule="label pair differs or instant within 90 s of 0h UTC",
-          quick=(4, 1200), thorough=(16, 12000)),
+          quick=(4, 1200), thorough=(16, 6000)),
     Facet("offsets", offsets_case, check_offsets, setup=setup_conv,
           rule="every case: six readings of one instant against tables and constants",
-          quick=(8, 800), thorough=(32, 8000)),
+          quick=(8, 800), thorough=(32, 5000)),
     Facet("table_days", None, check_table_day, setup=setup_real, runner=table_runner,
           rule="every day of finals.all +- margin, three fractions of the day",
           quick=(2, 0), thorough=(2, 0)),
     Facet("missing_policy", missing_case, check_missing, setup=setup_missing,
           rule="every case (date outside the tables or no database at all)",
-          quick=(4, 400), thorough=(8, 4000)),
+          quick=(4, 400), thorough=(8, 2000)),
     Facet("arithmetic", arith_case, check_arith, setup=setup_conv,
-          rule="every case", quick=(8, 800), thorough=(32, 8000)),
+          rule="every case", quick=(8, 800), thorough=(32, 4000)),
     Facet("order_eq_hash", oeh_case, check_oeh, setup=setup_conv,
           rule="labels differ or instant within 90 s of 0h UTC",
-          quick=(8, 1200), thorough=(32, 12000)),
+          quick=(8, 1200), thorough=(32, 5000)),
     Facet("daterange_model", range_case, check_range, setup=setup_conv,
           rule="negative step, non-dividing step, mixed labels or instant within 90 s of 0h UTC",
-          quick=(8, 500), thorough=(32, 5000)),
+          quick=(8, 500), thorough=(32, 2500)),
     Facet("constructors", ctor_case, check_ctor, setup=setup_conv,
-          rule="every case: five constructor forms of one reading", quick=(4, 500), thorough=(8, 5000)),
+          rule="every case: five constructor forms of one reading", quick=(4, 500), thorough=(8, 3000)),
 ]
